@@ -315,5 +315,45 @@ func TestVerif(t *testing.T) {
 			e.close()
 		}
 	}
+	// enabled-decoder lists: EVERY subset of the seven names x every algorithm, one small body each (the "not enabled =>
+	// rejected before the handler" clause does not depend on the body; aliasing between names would show here)
+	names := []string{"", "gzip", "zstd", "zlib", "snappy", "deflate", "lz4"}
+	for mask := 0; mask < 1<<len(names); mask++ {
+		n++
+		if !ctx.Mine(n) {
+			continue
+		}
+		list := []string{}
+		var nm []string
+		for i, x := range names {
+			if mask&(1<<i) != 0 {
+				list = append(list, x)
+				if x == "" {
+					x = "identity"
+				}
+				nm = append(nm, x)
+			}
+		}
+		e, err := c16NewEnv(4096, list)
+		if err != nil {
+			ctx.Infra("server: %v", err)
+			continue
+		}
+		for _, alg := range algos {
+			c := c16Case{Alg: alg, Kind: "literal", Literal: []byte{1, 0xff}, Size: 2, Limit: 4096, Enabled: list, EnabledN: "{" + strings.Join(nm, ",") + "}"}
+			ctx.R.Evals++
+			ctx.R.Trans++
+			ctx.Nontrivial(vr.Hash(c.Alg, c.EnabledN))
+			sig, what := c16Run(e, c)
+			if sig != "" {
+				ctx.Violate(sig+":"+c.Alg, what, c)
+				ctx.Outcome(sig)
+			} else {
+				ctx.R.Traces++
+				ctx.Outcome(fmt.Sprintf("ok:handler-ran=%v", e.calls > 0))
+			}
+		}
+		e.close()
+	}
 	ctx.R.States = ctx.R.Evals
 }
